@@ -262,6 +262,9 @@ def exDgram : Dgram := { addr := 7, data := exReq, rid := 9, now := List.replica
 def exResp (reqId : Nat) : Bytes :=
   (packResponse genLayout 9 (List.replicate 8 1) reqId [1, 2, 3, 4, 5, 6, 0xf0, 0x7f] 4321 (utf8Encode exCtx.name)
     (utf8Encode exCtx.workgroup) 40001).getD []
+/-- a well-formed kill request -/
+def exKill : Bytes := packKill genLayout 3 [1, 2, 3, 4, 5, 6, 7, 8]
+
 def exNodes : List Node :=
   [{ addr := 11, ctx := exCtx, rid := 9, now := List.replicate 8 1 },
    { addr := 12, ctx := { exCtx with name := ['m', 'e'] }, rid := 10, now := List.replicate 8 2 },
